@@ -3,6 +3,8 @@ import NdnProofs.Props.C10
 #print axioms Ndn.C10.lp_transparent
 #print axioms Ndn.C10.parseLp_nack
 #print axioms Ndn.C10.lp_nack
+#print axioms Ndn.C10.parseLp_nack_bare
+#print axioms Ndn.C10.lp_nack_bare
 #print axioms Ndn.C10.parseLp_fragmented
 #print axioms Ndn.C10.lp_fragment_rejected
 #print axioms Ndn.C10.token_roundtrip
